@@ -4,7 +4,7 @@ PROP = {
     "level": "proof",
     "harness_cmd": "c14",
     "run_file": "Run/C14Run.v",
-    "obligation_files": ["Props/C14.v", "Sem/OpsProofs.v"],
+    "obligation_files": ["Props/C14.v", "Sem/OpsLaws.v"],
     "trusted_base": [KERNEL, TABLES, HARNESS, NOAX],
     "assumptions": [],
     "residue": "",
